@@ -390,6 +390,26 @@ func runConsumerLine(toks []string) (string, string) {
 			}
 			sort.Strings(xs)
 			ans = append(ans, "hw["+strings.Join(xs, ",")+"]")
+			// the answer is the caller's to keep: scribbling over it must not reach the mock or a later answer
+			first := c.HighWaterMarks()
+			for tn, pm := range first {
+				for p := range pm {
+					pm[p] = -77
+				}
+				pm[99] = -5
+				_ = tn
+			}
+			first["bogus"] = map[int32]int64{0: 1}
+			var ys []string
+			for tn, pm := range c.HighWaterMarks() {
+				for p, h := range pm {
+					ys = append(ys, fmt.Sprintf("%s=%d", ckey{topicID(tn), p}, h))
+				}
+			}
+			sort.Strings(ys)
+			if !eqS(xs, ys) {
+				ioFail("consumer-hwm-answer-shares-state", line, fmt.Sprintf("after the caller changed an earlier answer: %v, before %v", ys, xs))
+			}
 			check(t, reps(), nil, false)
 		case "md":
 			md := map[string][]int32{}
